@@ -259,7 +259,7 @@ class Result:
     def slice(s, name, cases, distinct, samples, dist, rule, disagreements=()):
         s.cases += cases; s.distinct += distinct; s.samples += list(samples)[:3]; s.dist[name] = dist; s.rules.append(f"{name}: {rule}")
         known = load_known()
-        for d in disagreements:
+        for d in sorted(disagreements, key=lambda x: len(str(x.get("program", "")))):
             k = match_known(s.pid, d, known)
             if k: s.known_hits.setdefault(k["id"], (k, d))
             else: s.failing.append(dict(slice=name, **d))
